@@ -171,7 +171,7 @@ func run(sc *Scenario) *Obs {
 		// on the OpenAI routes Olla does not validate, the backend answers
 		body = []byte(fmt.Sprintf(`{"model":%q,"stream":%v,"messages":[]}`, model, sc.Stream))
 	}
-	raw := stack.Request("POST", path, s.Addr, [][2]string{{"Content-Type", "application/json"}, {"anthropic-version", "2023-06-01"}}, body, false)
+	raw := stack.Request("POST", path, s.Addr, [][2]string{{"Content-Type", "application/json"}, {"anthropic-version", "2023-06-01"}, {"X-Verif-Token", sc.Salt}}, body, false)
 	r := stack.Do(s.Addr, raw, 2*time.Second) // the wall-clock bound of the property
 	obs.Err, obs.Status, obs.Ms = r.Err, r.Status, r.Ms
 	obs.CT = anth.Header1(r, "Content-Type")
@@ -182,7 +182,11 @@ func run(sc *Scenario) *Obs {
 	time.Sleep(20 * time.Millisecond)
 	var all []*stack.Seen
 	for _, b := range bes {
-		all = append(all, b.Taken()...)
+		for _, x := range b.Taken() {
+			if v := x.Header["X-Verif-Token"]; len(v) > 0 && v[0] == sc.Salt { // only this scenario's traffic
+				all = append(all, x)
+			}
+		}
 	}
 	sort.Slice(all, func(i, j int) bool { return all[i].Seq < all[j].Seq })
 	for _, x := range all {
@@ -262,7 +266,13 @@ func main() {
 				out[i] = &Obs{StartErr: fmt.Sprint("panic: ", p)}
 			}
 		}()
-		out[i] = run(scs[i])
+		// environment noise (a stack that did not come up, a dial error) is retried; a timeout is a finding and is kept
+		for try := 0; try < 3; try++ {
+			out[i] = run(scs[i])
+			if out[i].StartErr == "" && out[i].Err != "dial" {
+				break
+			}
+		}
 	})
 	for i, sc := range scs {
 		c.Count(sc.Engine + "." + sc.Route + "." + sc.Fault)
